@@ -65,6 +65,7 @@ type c23Ann struct {
 }
 
 type c23Case struct {
+	pub     bool  // `v=pub`: print the public observables only
 	parents []int // parents[i] = parent of block i+1
 	anns    []c23Ann
 	ops     [][2]string
@@ -129,6 +130,8 @@ func c23Parse(line string) (*c23Case, bool) {
 				}
 				c.anns = append(c.anns, a)
 			}
+		case f == "v=pub":
+			c.pub = true
 		default:
 			return nil, false
 		}
@@ -419,7 +422,11 @@ func c23Run(line string) string {
 			outs = append(outs, "bad-op")
 			continue
 		}
-		outs = append(outs, res+" "+n.observe())
+		obs := n.observe()
+		if c.pub {
+			obs, _, _ = strings.Cut(obs, " # ")
+		}
+		outs = append(outs, res+" "+obs)
 	}
 	if len(outs) == 0 {
 		return "-"
